@@ -1,0 +1,13 @@
+/* Verification hooks (only seen when built with -DLIBCSD_VERIF).
+ * Re-included after every `#define MEMALLOC`: makes the initial buffer
+ * reservation of the front-coding / hash constructors a run-time value so
+ * that the buffer-growth paths are reachable with small inputs. The default
+ * is the library's constant, so behaviour is unchanged unless a harness
+ * assigns libcsd_verif_memalloc_value. */
+#ifndef _LIBCSD_VERIFHOOKS_H
+#define _LIBCSD_VERIFHOOKS_H
+#include <cstddef>
+inline size_t libcsd_verif_memalloc_value = 32768;
+#endif
+#undef MEMALLOC
+#define MEMALLOC (libcsd_verif_memalloc_value)
